@@ -3,6 +3,21 @@
 import json, pathlib, sys
 V = pathlib.Path(__file__).resolve().parent.parent
 CHECKS = {
+ "C01": dict(
+   technique="exhaustive enumeration of the 677 published equations with a harness dimension-vector model (reference-model oracle) + generated Buckingham unit-rescaling metamorphic test at 50 digits; the two oracles cross-check each other",
+   text="Every public Relational of every importable catalogue module is walked with the harness's own exact exponent-vector arithmetic from the declared leaf dimensions (sums/relations/min-max/piecewise agree, exponents and exp/trig/hyperbolic arguments dimensionless, derivative/integral rules), and tested numerically under generated environments and generated changes of units with multiplicatively independent factors. Exhaustive over programs, sampled over values; walker and numeric test must agree or the run is a harness error.",
+   note="Trusted: declared dimensions are read leaf by leaf through dimsys_SI; wildcard rule for plain SymPy symbols, zero and O(); log and special functions unconstrained as in the property text. 1 module cannot be imported (C03). One open known finding (neutron_flux_for_uniform_sphere).",
+   ref="DESIGN.md section 2/C01"),
+ "C10": dict(
+   technique="property-based testing: exhaustive generic-symbol shapes (all length triples 0..3) + Hypothesis-generated numeric/symbolic/polynomial components vs. a Fraction component model and algebraic laws (reference model + metamorphic identities), exhaustive refusal table",
+   text="All 64 length triples with generic symbols (polynomial identities: one generic case decides a shape), 2.4k generated cases quick / 48k thorough in five component flavours, and a 1291-row refusal table over coordinate-system combinations; every result is compared component-wise with the harness model at 3 rational assignments and every law by an exact rational-function residual.",
+   note="Trusted: textbook component formulas in the check module, SymPy expand/cancel as decision procedure for rational identities. Float flavour uses dyadic floats with a stated tolerance.",
+   ref="DESIGN.md section 2/C10; notes/C10.md"),
+ "C11": dict(
+   technique="property-based testing: Hypothesis-generated points/vectors/fields in all octants vs. harness textbook coordinate maps at 40+ digits (reference model), there-and-back round trips, curvilinear dot/magnitude/scale vs Cartesian (differential), refusal table",
+   text="1.3k vector cases, 650 field cases, 260 own-base-scalar cases and the refusal table per quick run (20x in thorough): rebase there and back, rebase vs harness map, dot/magnitude/scaling in curvilinear systems vs Cartesian truth (k>0 and k<0 separately), scalar fields re-expressed and applied at corresponding points, cylindrical<->spherical and wrong point kinds refused.",
+   note="Trusted: the harness maps typed from the textbook with the library's legacy ordering (r, theta=azimuth, phi=polar), cross-checked once against transformation_to_system; points are generated away from singularities. Only identity-oriented parent/child pairs from coordinates_transform are exercised.",
+   ref="DESIGN.md section 2/C11; notes/C11.md"),
  "C17": dict(
    technique="property-based testing: round-trip oracle (code_str -> harness Pratt parser -> random interpretation at 50 digits) over Hypothesis-generated canonical trees + exhaustive sweep of the 619 documented catalogue members in source form",
    text="Every generated canonical tree (4k quick / 150k thorough) and every documented catalogue equation in source form is rendered, parsed by an independent parser under ordinary precedence (lexicon of display names), and both sides are evaluated under 3 random environments; calculus nodes are linear functionals. Detects dropped brackets, lost signs, swapped arguments, wrong names; renderings outside the parser grammar are counted as unparsed, not as correct.",
